@@ -18,7 +18,7 @@ from py7zr.io import BytesIOFactory
 
 CALLS = ["write", "writestr", "writef", "writeall"]
 FAULTS = {
-    "write": ["missing", "lstat-EACCES", "lstat-EIO", "open-EACCES", "open-EIO", "read-fails", "bad-arcname-type"],
+    "write": ["missing", "lstat-EACCES", "lstat-EIO", "open-EACCES", "open-EIO", "read-fails", "bad-arcname-type", "special-file"],
     "writestr": ["bad-arcname", "bad-arcname-abs", "bad-data-type"],
     "writef": ["bad-arcname", "text-mode-source", "read-fails", "bad-source-type"],
     "writeall": ["missing", "open-EACCES", "read-fails", "lstat-EACCES", "lstat-EIO"],
@@ -141,7 +141,7 @@ class C15(Check):
     level = "fault_enumeration"
     technique = "enumerated (histories of <= 3 calls: call kind x fault kind x position x k) and Hypothesis-generated write histories with exactly one injected fault; archive model of the successful calls; access counters on the failed source"
     rule = ("history = 1..5 calls over write / writestr / writef / writeall with exactly one fault injected into call i: source path missing; "
-            "lstat or open of the source raising EACCES/EIO (pathlib.Path.open/lstat wrapped for that path only); read raising after k bytes "
+            "source is a FIFO; lstat or open of the source raising EACCES/EIO (pathlib.Path.open/lstat wrapped for that path only); read raising after k bytes "
             "(k in 0,1,4095,4096,4097; writef source or wrapped file); rejected arcname ('../x', absolute) or argument type; followed by 0..2 "
             "successful calls; closed by context manager, explicit close, or by the exception leaving the with-block (failing call last); other "
             "members ordinary or all with CRC-32 0 (empty / forged); Copy or LZMA2 filter. All histories of <= 3 calls are enumerated "
@@ -251,6 +251,9 @@ class C15(Check):
                     os.unlink(p)
                 else:
                     shutil.rmtree(p)
+            if fault == "special-file":
+                os.unlink(p)
+                os.mkfifo(p)  # neither file, directory nor link: the call is refused
             z = py7zr.SevenZipFile(bio, "w", filters=filters)
             try:
                 with inject(target_path, fault, k, counter):
@@ -330,7 +333,7 @@ class C15(Check):
                 pass
             # ---- the exception that reached the caller
             if seen_exc is not None:
-                if fault in ("bad-arcname", "bad-arcname-abs", "bad-data-type", "text-mode-source", "bad-source-type", "bad-arcname-type"):
+                if fault in ("bad-arcname", "bad-arcname-abs", "bad-data-type", "text-mode-source", "bad-source-type", "bad-arcname-type", "special-file"):
                     if not isinstance(seen_exc, (ValueError, TypeError)):
                         out.violate(dict(sig, kind="wrong-exception"), observed=repr(seen_exc)[:200], expected="ValueError")
                 elif fault == "missing":
@@ -339,7 +342,7 @@ class C15(Check):
                 elif not isinstance(seen_exc, Injected):
                     out.violate(dict(sig, kind="wrong-exception"), observed=repr(seen_exc)[:200], expected="the injected OSError")
                 # not retried behind the caller's back
-                if target_path is not None and fault != "missing":
+                if target_path is not None and fault not in ("missing", "special-file"):
                     if counter["opens"] > snapshot["opens"] or counter["reads"] > snapshot["reads"]:
                         out.violate(dict(sig, kind="failed-source-touched-again"), observed={"after": dict(counter), "at_failure": snapshot}, expected="no further open/read")
             # ---- what is in the archive
